@@ -299,6 +299,21 @@ def check(case, stats):
     m2 = {a: int(v) for a, v in sim2.state.memory.memory_file.items() if int(v)}
     if m1 != m2:
         raise Violation("spelling-changes-data", case, "data memory differs between two renderings")
+    # what a simulation assembled (and showed) before does not matter: the used simulation re-loads the second rendering,
+    # then a text that denotes no instruction at all
+    listing2 = sim2.state.instruction_memory.get_representation()
+    try:
+        sim.load_program(text2)
+        again = sim.state.instruction_memory.get_representation()
+        m3 = {a: int(v) for a, v in sim.state.memory.memory_file.items() if int(v)}
+        sim.load_program("# nothing\n\n")
+        nothing = sim.state.instruction_memory.get_representation()
+    except Exception as ex:
+        raise Violation("load-depends-on-earlier-load", case, f"re-loading into the used simulation: {type(ex).__name__}: {ex!r}\n{text2}")
+    if again != listing2 or m3 != m2:
+        raise Violation("load-depends-on-earlier-load", case, f"listing/data after loading into a used simulation differ from a fresh load\n--- earlier ---\n{text}\n--- then ---\n{text2}")
+    if list(nothing):
+        raise Violation("load-depends-on-earlier-load", case, f"a text without instructions loaded after\n{text2}\nlists {list(nothing)[:3]}")
     if multi_before_label:
         tags.add("expansion-before-referenced-label")
     if inline_on_pseudo:
